@@ -195,6 +195,22 @@ func Variants(tx []byte) []Variant {
 			}
 		}
 	}
+	// 4b. unknown fields inside the signature sub-message (the sign bytes are built without it, so this is the same signed content)
+	for _, f := range fs {
+		if f.num == 3 && f.typ == protowire.BytesType {
+			for _, extra := range [][]byte{varintField(15, 1), varintField(15, 2), bytesField(14, []byte("x"))} {
+				var b []byte
+				for _, g := range fs {
+					if g.num == 3 {
+						b = append(b, bytesField(3, append(bytes.Clone(f.val), extra...))...)
+					} else {
+						b = append(b, g.raw...)
+					}
+				}
+				add("unknown-field-in-unsigned-submessage", "signature", b)
+			}
+		}
+	}
 	// 5. alternative public-key encodings and malleated signatures (neither is covered by the sign bytes)
 	t := new(lib.Transaction)
 	if lib.Unmarshal(tx, t) == nil && t.Signature != nil {
